@@ -50,6 +50,9 @@ type execScript struct {
 }
 
 type execNode struct {
+	// onExecute, if set, is asked first for every EXECUTE of a scripted statement; true = it has taken the request
+	onExecute func(c *node.ServerConn, req *node.Request, sc *execScript) bool
+
 	mu      sync.Mutex
 	byStmt  map[string]*execScript
 	byID    map[string]*execScript
@@ -57,15 +60,18 @@ type execNode struct {
 	session *gocql.Session
 }
 
-func (sc *execScript) rowsBody(pageIdx int, skip bool) []byte {
+func (sc *execScript) rowsResp(pageIdx int, skip bool) *c04lib.Response {
 	p := sc.pages[pageIdx]
 	m := sc.meta
 	if skip {
 		m = c04lib.SMeta{NoMeta: true, Count: len(sc.meta.Cols)}
 	}
 	m.HasPaging, m.Paging = p.state != nil, p.state
-	resp := &c04lib.Response{Op: c04lib.OpResult, Result: c04lib.SResult{Kind: c04lib.RRows, Meta: m, Rows: p.rows}}
-	return resp.EncodeBody(sc.v)
+	return &c04lib.Response{Op: c04lib.OpResult, Result: c04lib.SResult{Kind: c04lib.RRows, Meta: m, Rows: p.rows}}
+}
+
+func (sc *execScript) rowsBody(pageIdx int, skip bool) []byte {
+	return sc.rowsResp(pageIdx, skip).EncodeBody(sc.v)
 }
 
 func newExecNode(v int) (*execNode, error) {
@@ -88,6 +94,16 @@ func newExecNode(v int) (*execNode, error) {
 			sc := en.byID[string(req.Execute.ID)]
 			en.mu.Unlock()
 			if sc != nil {
+				en.mu.Lock()
+				hook := en.onExecute
+				en.mu.Unlock()
+				if hook != nil && hook(c, req, sc) {
+					return
+				}
+				if len(sc.pages) == 0 { // a statement without a result set
+					c.Reply(req, node.Void{})
+					return
+				}
 				idx := 0
 				if req.Execute.Params.HasPagingState {
 					idx = -1
